@@ -364,7 +364,7 @@ public:
       _search_end = 0;
       _largest_unused_area = 0;
 
-      clear_flags(kFlagDirty | kFlagEmpty);
+      clear_flags(kFlagDirty | kFlagEmpty | kFlagIncremental);
     }
     else {
       if (_search_start == allocated_area_start) {
